@@ -160,8 +160,8 @@ Section Acts.
     - destruct l'; cbn [post_a]; rewrite mon_logc; cbn [mstep]; exact H.
     - destruct (recovers h).
       + pose proof (tr_http_error 500%N msg500
-                      (logc (ERecovered i (g_written (c_w c')) (g_status (c_w c'))) c')) as E.
-        destruct (http_error 500 msg500 (logc (ERecovered i (g_written (c_w c')) (g_status (c_w c'))) c'))
+                      (logc (ERecovered i (r_wrote (rc (c_w c'))) (r_code (rc (c_w c')))) c')) as E.
+        destruct (http_error 500 msg500 (logc (ERecovered i (r_wrote (rc (c_w c'))) (r_code (rc (c_w c')))) c'))
           as [c2 p].
         cbn [fst] in E.
         assert (HP : P i (mon_of c2)).
